@@ -712,7 +712,7 @@ class ModuleVistor(NodeVisitor):
                 # be described as "too complex".
                 raise ValueError()
             docstring: object = ast.literal_eval(expr)
-        except ValueError:
+        except (ValueError, TypeError):
             warn("Unable to figure out value for __doc__ assignment, "
                  "maybe too complex")
             return
@@ -1228,7 +1228,7 @@ def parseAll(node: ast.Assign, mod: model.Module) -> None:
     for idx, item in enumerate(node.value.elts):
         try:
             name: object = ast.literal_eval(item)
-        except ValueError:
+        except (ValueError, TypeError):
             mod.report(
                 f'Cannot parse element {idx} of "__all__"',
                 section='all', lineno_offset=node.lineno)
@@ -1261,7 +1261,7 @@ def parseDocformat(node: ast.Assign, mod: model.Module) -> None:
 
     try:
         value = ast.literal_eval(node.value)
-    except ValueError:
+    except (ValueError, TypeError):
         mod.report(
             'Cannot parse value assigned to "__docformat__": not a string',
             section='docformat', lineno_offset=node.lineno)
